@@ -241,8 +241,8 @@ func directC03Modes(g *G, rep *Report) {
 								return srcFile{ns + ".soy", "{namespace " + ns + attr(nsa) + "}\n/**\n * @param p\n * @param m\n */\n{template .t" + attr(ta) + "}\n" + body + "\n{/template}\n"}
 							}
 							fs := []srcFile{
-								mk("n0", n0, t0, "0({$p}{$m.p})"+call("n1.t")),
-								mk("n1", n1, t1, "1[{$p}{let $c}{$m.p}{/let}{$c|noAutoescape}]"+call("n2.t")),
+								mk("n0", n0, t0, "0({$p}{$m.p})"+call("n1.t")+"0'({$p}{let $c}{$m.p}{/let}{$c})"),
+								mk("n1", n1, t1, "1[{$p}{let $c}{$m.p}{/let}{$c|noAutoescape}]"+call("n2.t")+"1'[{$p}{msg desc=\"e\"}z{$m.p}{/msg}]"),
 								mk("n2", n2, t2, "2<{$p}{msg desc=\"d\"}x{$m.p}y{/msg}>"),
 							}
 							reg, err := compileBundle(fs)
@@ -256,7 +256,12 @@ func directC03Modes(g *G, rep *Report) {
 							out, class := renderSafe(reg, "n0.t", d, nil)
 							rep.Distribution["modes:"+class]++
 							e0, e1, e2 := eff(n0, t0), eff(n1, t1), eff(n2, t2)
-							want := "0(" + show(e0) + show(e0) + ")1[" + show(e1) + show(e1) + "]2<" + show(e2) + "x" + show(e2) + "y>"
+							// after a call returns, the caller's own mode is in force again (content blocks of an escaping template escape twice)
+							twice := show(e0)
+							if e0 {
+								twice = strings.Replace(esc, "&", "&amp;", -1)
+							}
+							want := "0(" + show(e0) + show(e0) + ")1[" + show(e1) + show(e1) + "]2<" + show(e2) + "x" + show(e2) + "y>" + "1'[" + show(e1) + "z" + show(e1) + "]0'(" + show(e0) + twice + ")"
 							if class != "OK" || out != want {
 								rep.Violations = append(rep.Violations, Viol{
 									Key:  "effective-mode:" + n0 + "/" + t0 + ">" + n1 + "/" + t1 + ">" + n2 + "/" + t2 + ":" + form,
